@@ -390,9 +390,12 @@ impl IntColBuffer {
         self.max = cmp::max(elem, self.max);
         if elem > self.last {
             self.increasing += 1;
-        } else if elem.checked_sub(self.last).is_none() {
+        }
+        // Delta encoding stores `elem - last` for every element after the first, so the difference
+        // has to fit into an i64 for increasing steps as well (e.g. -2 followed by i64::MAX - 1).
+        if !self.data.is_empty() && elem.checked_sub(self.last).is_none() {
             self.allow_delta_encode = false;
-        };
+        }
         self.last = elem;
         self.data.push(elem);
     }
